@@ -263,7 +263,10 @@ class Ctx:
         ev = {"property_id": self.pid, "tier": self.tier, "seed": self.seed, "level": level, "coverage": cov,
               "assumptions": self.assumptions, "wall_s": round(wall, 2), "violations": len(self.violations)}
         os.makedirs(os.path.join(VERIF, "evidence"), exist_ok=True)
-        evp = os.path.join(VERIF, "evidence", "extras" if self.pid.startswith("X") else "", self.pid + ".json")
+        sub = "extras" if self.pid.startswith("X") else ""
+        if os.environ.get("VERIF_REPO"):
+            sub = "other-tree"    # a run against another tree than /repo (seeded changes): never the committed evidence
+        evp = os.path.join(VERIF, "evidence", sub, self.pid + ".json")
         os.makedirs(os.path.dirname(evp), exist_ok=True)
         with open(evp, "w") as f:
             json.dump(ev, f, indent=1, default=str)
